@@ -161,6 +161,21 @@ CLAIMED = {
         note="Thread/asyncio scheduling is not modelled: dispatcher steps are atomic (they are, per client, by the GIL + paho "
              "callback thread / single event loop). uuid1 freshness is a hypothesis. Trusted: stub MQTT modules, pydriver.py.",
         tech="Lean 4 proof (induction over message lists) + model-vs-implementation correspondence against both real Python clients"),
+    "C18": dict(
+        text="Lean 4 theorems composing the two models through an explicit wire translation (payload text, response topic, "
+             "correlation data, user property code=<ResponseCode variant name>): constants_agree (response-code strings, "
+             "user-property key, /settings infix, /response topic, 16-byte uuid ≤ 32-byte cache, model constants = source "
+             "constants — all literals regenerated from lib.rs/async_.py/sync.py by extract/gen_consts.py on every run); "
+             "request_topic_understood; get/set/list/error end-to-end: for any traffic interleaved on the Python side, the "
+             "caller gets the value the device holds, the exact leaf-path list, a normal completion for an accepted set, or an "
+             "exception with the device's Error code and text. Every run carries requests Python → real Rust client → Python: "
+             "the publications of both real Python clients are delivered to the real MqttClient, its response packets (raw user "
+             "properties included) are fed unchanged into the real Python dispatcher and the Lean dispatcher model; results are "
+             "compared with an independent simulator of the settings types, for every leaf/internal node/request kind.",
+        note="The broker between the two is replaced by in-process delivery of the response-topic packets in wire order. Error "
+             "texts of serde are compared by prefix. Trusted: gen_consts.py, broker stub decoder, Python MQTT stubs.",
+        tech="Lean 4 proof (composition of two verified models + constants regenerated from source) + end-to-end "
+             "correspondence run through both real implementations"),
 }
 
 PENDING = "not yet built in this framework (work in progress; see DESIGN.md §10 order of work)"
